@@ -609,7 +609,7 @@ func TestC13(t *testing.T) {
 	cliCases(t, "C13", "optimize")
 	ids := []string{"s0", "s1", "S0", "s3", "S1", "s5"} // s0/S0 and s1/S1 differ by case only: two identifiers
 	rids := []string{"r0", "r1", "r2"}
-	rapidCheck(t, "C13/graphs", tier(4000, 300000), func(rt *rapid.T) {
+	rapidCheck(t, "C13/graphs", tier(4000, 3000000), func(rt *rapid.T) {
 		c := c13Case{}
 		c.Source = rapid.SampledFrom([]string{"", "", "", "ttml", "ttml", "ssa", "vtt", "srt"}).Draw(rt, "source")
 		ns := rapid.IntRange(0, 6).Draw(rt, "nstyles")
